@@ -123,7 +123,8 @@ fn break_one(rng: &mut Rng, p: &mut Pay) {
         8 => p.bogus_payee = Some(rng.below(p.n as u64) as u8),
         0 => {
             let i = rng.usize_below(p.n as usize);
-            p.sigs[i] = 1 + rng.below(2) as u8;
+            // 1 forged, 2 signed by another key, 3 a self-consistent quote of another node listed under this payee
+            p.sigs[i] = 1 + rng.below(3) as u8;
         }
         1 => p.self_pos = None,
         2 => p.far = Some((rng.below(p.n as u64) as u8, rng.below(2) as u8)),
@@ -175,7 +176,8 @@ fn gen_delivery(rng: &mut Rng, prop: &str, mutable_only: bool, unpaid_bias: bool
             // 5 = validly signed op of the owner written for ANOTHER register (foreign address)
             // 6 = the whole delivery is a register on ANOTHER owner-signed base for the same address (its permissions
             // list the stranger as writer) carrying ops of the stranger: valid on its own, foreign to the held register
-            _ => if rng.chance(1, 5) { 2 + rng.below(5) as u8 } else { rng.below(2) as u8 },
+            // 7 = an op the owner signed for ANOTHER register, its address field rewritten to this one
+            _ => if rng.chance(1, 5) { 2 + rng.below(6) as u8 } else { rng.below(2) as u8 },
         };
         items.push((id, flag));
     }
